@@ -386,6 +386,20 @@ pub fn sample_case(rng: &mut Rng, id: u64, profile: &str, unsafe_sel: &str) -> C
         mu: if rng.below(8) == 0 && (mask & 0x40) == 0 { !unsafe_m } else { unsafe_m },
         muts: None,
     };
+    if profile != "c15" && rng.below(4) == 0 {
+        // an explicit ordered mutator list: any order, repetitions allowed (the first applicable mutator wins, so
+        // order matters); never an unsafe-mode TypeConfusion on a safe generator (see `mu` above)
+        let n = 1 + rng.below(4) as usize;
+        let mut v = Vec::new();
+        for _ in 0..n {
+            let k = rng.below(7) as usize;
+            if k == 6 && !(c.unsafe_m && c.mu) {
+                continue;
+            }
+            v.push(k);
+        }
+        c.muts = Some(v);
+    }
     if profile == "c15" {
         // the rate extremes with every single value mutator and every ordered pair of them, mutator objects built
         // with either unsafe_mode, on safe and unsafe generators, medium-sized programs (so that every value kind,
